@@ -111,6 +111,9 @@ def const_bits(v):
     return []
 
 
+PROGRAM_TIME_LIMIT = 30      # seconds per (program, state, configuration); exceeded runs are counted, not judged
+
+
 def decode_candidates(cpu, isa, mode, per_mn):
     """instructions that decode and execute on an empty mapper: per (spec, mnemonic) up to
     `per_mn` encodings spread evenly over the spec-driven enumeration (first and last included)"""
@@ -311,7 +314,12 @@ def mode_unit(args):
         stats["programs"] += 1
         for (na, mt) in configs:
             for v in variants:
-                r = run_program(cpu, regs, pcname, p, v, na, mt, mode)
+                try:
+                    with core.time_limit(PROGRAM_TIME_LIMIT):
+                        r = run_program(cpu, regs, pcname, p, v, na, mt, mode)
+                except core.TimeLimit:
+                    stats["timeouts"] = stats.get("timeouts", 0) + 1
+                    r = None
                 stats["runs"] += 1
                 if r is None:
                     stats["skipped"] += 1
@@ -336,11 +344,11 @@ def run(tier, seed):
             jobs.append((isa, mode, tier, k, ns))
     jobs = core.rotate(jobs, seed)
     res = core.pmap(mode_unit, jobs, chunksize=1)
-    tot = {"programs": 0, "runs": 0, "skipped": 0}
+    tot = {"programs": 0, "runs": 0, "skipped": 0, "timeouts": 0}
     per = {}
     for j, r in zip(jobs, res):
         for k in tot:
-            tot[k] += r["stats"][k]
+            tot[k] += r["stats"].get(k, 0)
         per[(r["isa"], r["mode"])] = {"candidates": r["stats"]["candidates"], "alphabet": r["alphabet"], "classes": r["stats"]["classes"]}
         for f in r["fails"]:
             rep.add(Failure.from_json(f))
@@ -368,11 +376,16 @@ def run(tier, seed):
                 "memory byte must agree; non-trivial = distinct programs",
         "per_mode": [{"isa": a, "mode": b, **v} for (a, b), v in sorted(per.items())],
         "skipped_runs_route_raises": tot["skipped"], "shadowed": shadowed,
+        "runs_over_time_limit_not_judged": tot["timeouts"], "time_limit_s": PROGRAM_TIME_LIMIT,
         "samples": [{"isa": jobs[0][0], "programs": "length 1 and 2 over the derived alphabet"}],
         "bound": "sequence length <= %d (the property states 1..8)" % (3 if tier == "thorough" else 2),
     })
     rep.assumptions = ["programs on which either route raises are skipped (decided by C17)",
                        "symbolic or top results on the symbolic route are accepted"]
+    if tot["timeouts"]:
+        # a cap was hit: the runs over the time limit are reported, everything else was covered
+        rep.exhaustive = False
+        rep.assumptions.append("%d runs exceeded %d s and were not judged" % (tot["timeouts"], PROGRAM_TIME_LIMIT))
     return rep
 
 
